@@ -272,11 +272,37 @@ def _quotable(host):
     return ('|', '(', ')', 'A') if host == 'transformer' else ('!', '&&', '||', '(', ')', 'A')
 
 
+def host_operators(host):
+    """the operator tokens of the host's documented grammar (infix and prefix)"""
+    return R.grammar_operators(*_grammar_of(host))
+
+
+def near_tokens(host, chars, maxlen=3, quoted=False):
+    """Near-miss operator tokens of a host type: every string of 1..maxlen characters of `chars` that is not an
+    operator of the host's grammar (so: `&`, `|`, `&&&`, `|||`, `&|`, .. and the operators of the OTHER expression
+    grammar), optionally with the soft- and hard-quoted forms of the host's own operators."""
+    out = R.near_miss_tokens(*_grammar_of(host), chars=tuple(chars), maxlen=maxlen)
+    if quoted:
+        out += tuple(q for o in host_operators(host) for q in quoted_forms(o))
+    return out
+
+
 def _k2_strings_of(case):
     """The token strings of a K2 case.  quoted=None: the plain catalogue; 'one': every string of the plain
     catalogue with exactly one operator / parenthesis / symbol-name token replaced by its soft- or hard-quoted
     form; 'ext': the plain catalogue over the alphabet extended by all quoted forms (case['alphabet'] is
-    already the extended one)."""
+    already the extended one).  near='one': every string of the plain catalogue with exactly one OPERATOR token
+    (infix or prefix) replaced by a near-miss operator token (case['near_tokens'])."""
+    if case.get('near') == 'one':
+        ops = host_operators(case['host'])
+        plain = set(case['alphabet'])
+        subst = tuple(q for q in case['near_tokens'] if q not in plain)
+        for toks in _k2_strings(case):
+            for i, t in enumerate(toks):
+                if t in ops:
+                    for q in subst:
+                        yield toks[:i] + (q,) + toks[i + 1:]
+        return
     if case.get('quoted') != 'one':
         for toks in _k2_strings(case):
             yield toks
@@ -294,6 +320,35 @@ def _k2_items(case):
         src = R.render(toks)
         for simple, cur in VARIANTS:
             yield toks, src, simple, cur, None
+
+
+def _near_chain_items(case):
+    """near='chain': every generated tree (a well-formed chain of operators, with needed and redundant parentheses),
+    rendered; then (a) each single operator position - infix or prefix - and (b) all infix operator positions at
+    once carry a near-miss token; every placement of <= nl line breaks; the four parser variants.  The tree itself
+    (nothing replaced) is included as the control."""
+    ops = host_operators(case['host'])
+    infix = tuple(o for lv in _grammar_of(case['host'])[0] for o in lv)
+    seen = set()
+    for t in _k1_trees(case):
+        units = R.tree_tokens(t)
+        positions = [i for i, u in enumerate(units) if u in ops]
+        infix_positions = [i for i in positions if units[i] in infix]
+        variants = [units]
+        for q in case['near_tokens']:
+            for i in positions:
+                variants.append(units[:i] + [q] + units[i + 1:])
+            if len(infix_positions) > 1:
+                variants.append([q if i in infix_positions else u for i, u in enumerate(units)])
+        for units2 in variants:
+            for gaps, _permitted in _layouts(units2, case['layout']):
+                toks, _src = _with_gaps(units2, gaps)
+                if toks in seen:
+                    continue
+                seen.add(toks)
+                src = R.render(toks)
+                for simple, cur in VARIANTS:
+                    yield toks, src, simple, cur, None
 
 
 def _w_items(case):
@@ -610,7 +665,7 @@ def _stage1_compute(case):
         if family == 'K3b':
             names = TEXT_LEAVES
             arg_prims = {'-transformed-by T': TEXT_LEAVES, 'every line :': LINE_LEAVES, 'any line :': LINE_LEAVES}
-        items = (_k2_items(case) if family == 'K2' else _k3_items(case) if family == 'K3'
+        items = (_near_chain_items(case) if case.get('near') == 'chain' else _k2_items(case) if family == 'K2' else _k3_items(case) if family == 'K3'
                  else _k3b_items(case) if family == 'K3b' else _w_items(case) if family == 'W' else _k1_items(case))
         bad = []
         classes = {}
@@ -627,6 +682,14 @@ def _stage1_compute(case):
                 if case.get('oracle_bug') == 'soft-quoted-is-operator':
                     # seeded oracle error: a soft-quoted token denotes what it quotes
                     rtoks = tuple(t[1:-1] if len(t) > 2 and t[0] == '"' and t[-1] == '"' else t for t in toks)
+                if case.get('oracle_bug') == 'near-miss-is-operator':
+                    # seeded oracle error: a lone `&` / `|` is taken for the operator it is a prefix of
+                    rtoks = tuple({'&': '&&', '|': '||'}.get(t, t) for t in toks)
+                if case.get('near') and not simple and not cur:
+                    n_items += 1
+                    d = _whole_text_check(host, rtoks, src, levels, prefix, names, real, X)
+                    if d is not None:
+                        bad.append((d[0], 'def %s M = %s' % (X.DEF_TYPE[host], src), simple, cur, d[1]))
                 ref = R.ref_parse(rtoks, levels, prefix, names, simple, cur, arg_prims)
                 if ref[0] == 'err':
                     if real[0] != 'err':
@@ -653,6 +716,28 @@ def _stage1_compute(case):
                 if real[0] != 'err' and real[3].strip() == '':
                     bad.append(('accepted, but malformed', src, simple, cur, real[3]))
         return (bad, list(classes.values()), n_items)
+
+
+def _whole_text_check(host, toks, src, levels, prefix, names, real, X):
+    """The route on which the WHOLE text must be an expression: `def TYPE M = <text>`.  A text that the documented
+    grammar does not derive (the reference recogniser fails, or something other than a line break follows the longest
+    expression) is a syntax error of the instruction; a text it derives is accepted, as the same object that the
+    expression parser of the type reads, and what follows the line break is left for the next instruction.
+    -> None | (what is wrong, observed)"""
+    got = X.real_def_parse(host, src)
+    ref = R.ref_parse(toks, levels, prefix, names, False, False)
+    derived = ref[0] == 'ok' and (ref[2] >= len(toks) or toks[ref[2]] == NL)
+    if not derived:
+        if got[0] != 'err':
+            return ('accepted by `def`, but the text is not an expression of the documented grammar', got[2])
+        return None
+    if got[0] != 'ok':
+        return ('rejected by `def`, but well-formed', got[1])
+    if got[2].split() != ' '.join(u for u in toks[ref[2]:] if u != NL).split():
+        return ('`def` leaves something else than what follows the expression', got[2])
+    if real[0] == 'ok' and X.fingerprint(got[1], X.OPAQUE) != X.fingerprint(real[1], X.OPAQUE):
+        return ('`def` reads the text differently from the expression parser of the type', '')
+    return None
 
 
 _DIAG = []
@@ -919,6 +1004,92 @@ def _k2_obligations(tier) -> List[Ob]:
     return obs
 
 
+REAL_DEF = (
+    'exactly_lib.impls.instructions.multi_phase.define_symbol.parser.EmbryoParser.parse',
+    'exactly_lib.impls.instructions.multi_phase.define_symbol.parser._parse',
+    'exactly_lib.impls.instructions.multi_phase.define_symbol.type_parser',
+    'exactly_lib.section_document.element_parsers.token_stream_parser.TokenParser.report_superfluous_arguments_if_not_at_eol',
+)
+OUT_NEAR = ('near-miss operator tokens other than strings of <= 3 characters of {&, |, !} and the quoted operators '
+            '(e.g. an operator glued to an operand, `&&B`: token boundaries are C09)')
+
+
+def _k2n_obligations(tier) -> List[Ob]:
+    """K2n1 / K2nc: malformed / near-miss operator tokens at every operator position."""
+    from harness import _C06_real as X
+    obs = []
+    thorough = tier == 'thorough'
+
+    def mk(name, host, case, what, timeout):
+        case = dict(case, family='K2', host=host)
+        near = case['near_tokens']
+        obs.append(Ob(
+            name=name, fn='k_trans' if host == 'transformer' else 'k_bool', case=case, kernel='K2',
+            bound='%s host: %s; near-miss operator tokens (none is an operator of the %s grammar): {%s}; tokens separated by single '
+                  'blanks (catalogue enumerated by the harness); parsers full/simple x on-current-line/any-line: same accept / reject / '
+                  'exact unconsumed rest as the reference recogniser (a near-miss token is neither an operator nor an operand: the '
+                  'expression ends before it, or a mandatory operand is missing), AND the whole-text route `def %s M = TEXT`: syntax '
+                  'error unless the documented grammar derives the whole text up to the line end; %s' % (
+                      host, what, 'transformer' if host == 'transformer' else 'matcher', '  '.join(near),
+                      X.DEF_TYPE[host], _leafdoc(host)),
+            timeout=timeout, per_path_timeout=timeout,
+            expect=ob.REFUTE if case.get('oracle_bug') else ob.CONFIRM,
+            real=_real_for(host, REAL_DEF), stubs=((STUB_TLEAF,) if host == 'transformer' else (STUB_LEAF, STUB_MODEL)) + (STUB_NOTRACE,),
+            outside=(OUT_PRIMS, OUT_TOKENIZER, OUT_NEAR),
+            entry='%s.parsers(b).full|simple .parse_from_token_parser; define_symbol.parser.EmbryoParser.parse' % PARSER_MODULE[host]))
+
+    def one(host, prefix, maxlen, chars, timeout, near_maxlen=3, **extra):
+        alphabet = K2_ALPHABET_T if host == 'transformer' else K2_ALPHABET_M
+        case = dict(alphabet=alphabet, prefix=tuple(prefix), maxlen=maxlen, shorter=False, near='one',
+                    near_tokens=near_tokens(host, chars, near_maxlen))
+        case.update(extra)
+        n = sum(1 for _ in _k2_strings_of(dict(case, host=host)))
+        mk('K2n1:%s:%s%s' % (host, '-'.join(_tokname(t) for t in prefix) or 'all', ''.join(':' + str(v) for v in extra.values())),
+           host, case,
+           '%d token strings: every token string of <= %d tokens over {%s} that starts with [%s], with exactly one operator token '
+           '(infix or prefix) replaced by a near-miss operator token' % (
+               n, maxlen, ', '.join(_tokname(t) for t in alphabet), ' '.join(_tokname(t) for t in prefix)), timeout)
+
+    def chain(host, name, leaves, depth, wrappers, nl, chars, timeout, nparts=1, **extra):
+        trees = dict(leaves=leaves, depth=depth, wrappers=wrappers)
+        if host == 'transformer':
+            trees.update(ops=('|',), wrapper_kinds=('P',))
+        for part in range(nparts):
+            case = dict(trees=trees, layout=dict(nl=nl), part=(part, nparts), near='chain',
+                        near_tokens=near_tokens(host, chars, quoted=True))
+            case.update(extra)
+            mk('K2nc:%s:%s%s%s' % (host, name, (':p%d' % part) if nparts > 1 else '', ''.join(':' + str(v) for v in extra.values())),
+               host, case,
+               '%d trees (part %d/%d): every tree over the leaves %s in this order, nesting <= %d, <= %d nodes of kind %s (chains of up '
+               'to %d operators, with needed and redundant parentheses); in its rendering (a) each single operator position - infix or '
+               'prefix - and (b) all infix operator positions at once carry a near-miss token or a quoted operator; the unchanged '
+               'rendering is the control; every placement of <= %d line breaks at ANY gap' % (
+                   len(_k1_trees(dict(case, host=host))), part + 1, nparts,
+                   ' / '.join('{' + ', '.join(ls) + '}' for ls in leaves), depth, wrappers,
+                   'redundant ( )' if host == 'transformer' else '`!` / redundant ( )', max(len(ls) for ls in leaves) - 1, nl), timeout)
+
+    L23 = [('A', 'B'), ('A', 'B', 'C')]
+    L4 = [('A', 'B', 'C', 'D')]
+    AP = ('&', '|')         # `&`, `|`, `&|`, `|&`, `&&&`, `|||`, .. (quick tier, catalogue of all strings)
+    APN = R.OPERATOR_CHARS  # additionally `!!`, `&&!`, `!&&`, `!|`, ..
+    for host in ('integer', 'line', 'string', 'file', 'files', 'transformer'):
+        t = host == 'transformer'
+        if not thorough:
+            # the integer host carries the large token sets; the other hosts (same grammar object, other primitives) the small ones
+            big = host == 'integer'
+            one(host, (), 4, AP, 300, near_maxlen=3 if big or t else 2)
+            chain(host, 'n2-3', L23, 3, 1, 1, APN if big or t else AP, 300)
+            chain(host, 'n4', L4, 2, 1, 0, APN if big or t else AP, 300)
+        else:
+            for f in (K2_ALPHABET_T if t else K2_ALPHABET_M):
+                one(host, (f,), 6 if t else 5, APN if host == 'integer' else AP, 1200)
+            chain(host, 'n2-3', L23, 3, 2, 2, APN, 1200, nparts=2)
+            chain(host, 'n4', L4, 3, 1, 1, APN, 1800, nparts=4)
+    one('integer', ('A',), 3, AP, 300, oracle_bug='near-miss-is-operator')
+    chain('integer', 'seeded', [('A', 'B', 'C')], 1, 0, 0, AP, 300, oracle_bug='near-miss-is-operator')
+    return obs
+
+
 WITNESS_A = (('(', 'A', '||', 'B', NL, '&&', 'A', ')'), ('(', 'A', '||', 'B', NL, '&&'))
 WITNESS_B = (('A', NL, '&&', 'B'), ('A', NL, '&&'))
 
@@ -1082,7 +1253,7 @@ K4_REAL = {
 
 
 def obligations(tier: str) -> List[Ob]:
-    return _k1_obligations(tier) + _k2_obligations(tier) + _k4_obligations(tier) + _witness_obligations()
+    return _k1_obligations(tier) + _k2_obligations(tier) + _k2n_obligations(tier) + _k4_obligations(tier) + _witness_obligations()
 
 
 def selftest(tier: str) -> int:
